@@ -73,6 +73,11 @@ CHECKS["C06"] = ("exploration",
     "Generated <platform>/env directories (byte-string file names, UTF-8 contents incl. empty / newlines / 5 kB, sub-directories, symlinks to files and directories, dangling links, no env dir, files with non-UTF-8 content), buildpack plans / store tables / descriptor metadata from nested TOML values of every kind, all presence/value combinations of the target variables incl. non-UTF-8 values, work directories with spaces and Unicode, store.toml absent / valid / empty / non-UTF-8 / a directory / malformed. The dump must equal the inputs exactly; unrepresentable inputs must end in the error path (on_error once, non-zero, no context), never in a context with the entry missing or altered.",
     "Trusted: tools/c06.py generator = oracle (equality with its own inputs), tomllib/tomlw. One defect found here was repaired (fix: 2d61a47).")
 
+CHECKS["C20"] = ("exploration",
+    "runtime monitoring: paired (tripled) executions in fresh processes under different work-dir roots; per-step directory snapshots compared byte for byte",
+    "The history generators of C01 and C02 (with widened payloads: 12-key metadata tables incl. nested ones, 8 per-process env dirs, full exec.d sets) and detect+build phase scenarios (3 or-groups x 8 provides/requires with 12-key metadata, 12 labels with duplicated keys in random order, 6 processes, 13+12-key store, all SBOM kinds) each run in three fresh OS processes (fresh RandomState seeds, different PIDs/times, roots of different length and depth); <layers>, the build plan, launch.toml, store.toml, <layer>.toml, env files, exec.d and SBOM files must be byte-identical after every step.",
+    "Trusted: snapshot comparison only. A leak of hash order over >=8 keys would show with probability > 0.999 per scenario.")
+
 PENDING = {}
 
 
